@@ -433,6 +433,64 @@ def run(ctx):
             t.header = hb
             attack(rec, t, "multi:respell:" + label, verify_all=False)
 
+    # ------------------------------------------------------------------ registry selection x multi-recipient faults
+    # every way of selecting the registry (none / algorithms= / registry= True|False / both); the caller opted into
+    # any-recipient validation ONLY by passing its own registry with verify_all_recipients=False
+    rec_algs = ["A128KW", "A256KW", "RSA-OAEP", "ECDH-ES+A128KW", "ECDH-ES+A256KW"]     # usable with the default registry
+    sel_tokens = []
+    for i in range(ctx.scale(3, 12)):
+        enc = rng.choice(["A128CBC-HS256", "A256GCM", "A128GCM", "A256CBC-HS512"])
+        algs = [rec_algs[(i + j) % len(rec_algs)] for j in range(2 + i % 2)]
+        spec = J.make_spec(K, rng, "general", algs, enc, crv="P-256", zip_=(i % 2 == 1), plaintext=b"selection %d" % i,
+                           aad=b"a" if i % 2 else None)
+        obs, info = J.encrypt_spec(spec)
+        if obs[0] == "ok":
+            sel_tokens.append((spec, J.token_of(obs), [k for _, k in info["recips"]]))
+    sel_names = ["A128KW", "A256KW", "RSA-OAEP", "ECDH-ES+A128KW", "ECDH-ES+A256KW", "dir", "A128CBC-HS256", "A256GCM",
+                 "A128GCM", "A256CBC-HS512", "DEF"]
+
+    def sel_run(label, spec, token, keys, faulty, ser="general"):
+        for mode, use_algs, reg in J.SEL_MODES:
+            algs_arg = sel_names if use_algs else None
+            obs, (slog, nondet) = J.do_decrypt_sel(J.dec_ser(ser), token, keys, None, algs_arg, reg)
+            ctx.note_case(("selection", label, mode, repr(token)[:200]))
+            bump("selection-" + mode)
+            opted_in = (reg is False)           # the caller's own registry says any-recipient validation
+            rp = {"ser": ser, "token": token, "keys": [J.key_jwk(k) for k in keys], "sender": None, "mode": mode,
+                  "algorithms": algs_arg, "registry_verify_all": reg, "expect": "reject" if faulty else spec["plaintext"].hex()}
+            if faulty and obs[0] == "ok" and not opted_in:
+                ctx.violation({"kind": "any-recipient-without-opt-in", "selection": mode},
+                              "a JWE with a faulty recipient was accepted although the caller never opted into any-recipient "
+                              "validation (registry selection: %s; %s)" % (mode, label), rp)
+            if not faulty and (obs[0] != "ok" or obs[1] != spec["plaintext"]):
+                ctx.violation({"kind": "valid-token-rejected", "selection": mode},
+                              "a valid token is rejected under registry selection %s (%s): %s" % (mode, label, obs[1]), rp)
+            if obs[0] == "ok" and obs[1] != spec["plaintext"]:
+                ctx.violation({"kind": "wrong-plaintext", "selection": mode}, "other plaintext (%s, %s)" % (mode, label), rp)
+            if not nondet and J.table_chars(slog) < 40000:
+                cases.append(J.case_dec_sel(J.dec_ser(ser), token, keys, None, algs_arg, reg, obs, slog))
+                meta.append(("selection", mode + ":" + label))
+
+    for spec, token, keys in sel_tokens:
+        lab = "+".join(spec["algs"]) + "/" + spec["enc"]
+        sel_run("valid:" + lab, spec, token, keys, False)
+        base = Tok("general", token)
+        for i in range(len(keys)):
+            t = base.clone()                                  # bit flip in recipient i's encrypted key
+            ek = t.recips[i]["ek"]
+            t.recips[i]["ek"] = flip(ek, rng.randrange(len(ek) * 8))
+            sel_run("ek-bit-flip@%d:%s" % (i, lab), spec, t.build(), keys, True)
+            wrong = list(keys)                                # recipient i wrapped for a foreign key
+            wrong[i] = K.for_alg(spec["algs"][i], spec["enc"], "P-256", "alt")
+            sel_run("foreign-key@%d:%s" % (i, lab), spec, token, wrong, True)
+    # single recipient, compact and flattened: every selection behaves alike
+    for ser in ("compact", "flat"):
+        spec = J.make_spec(K, rng, ser, ["A128KW"], "A128GCM", plaintext=b"single " + ser.encode())
+        obs, info = J.encrypt_spec(spec)
+        if obs[0] == "ok":
+            sel_run("single-valid:" + ser, spec, J.token_of(obs), [k for _, k in info["recips"]], False, ser=ser)
+            sel_run("single-wrong-key:" + ser, spec, J.token_of(obs), [K.for_alg("A128KW", "A128GCM", "P-256", "alt")], True, ser=ser)
+
     # ------------------------------------------------------------------ key resolution (model/JweKeys.v)
     from joserfc.jwk import KeySet
 
